@@ -86,22 +86,26 @@ package bufmodule
 //@   closure 0 ensures r <==> module.IsTarget()
 //@   ensures only-targets: forall j int :: 0 <= j && j < len(r) ==> r[j].IsTarget() && (exists i int :: 0 <= i && i < len(moduleSet.Modules()) && moduleSet.Modules()[i] == r[j])
 //@   ensures all-targets: forall i int :: 0 <= i && i < len(moduleSet.Modules()) && moduleSet.Modules()[i].IsTarget() ==> (exists j int :: 0 <= j && j < len(r) && r[j] == moduleSet.Modules()[i])
+//@   ensures order {C10 C02}: forall j int :: 0 <= j && j < len(r) ==> (exists i int :: 0 <= i && i < len(moduleSet.Modules()) && moduleSet.Modules()[i] == r[j] && (forall k int :: 0 <= k && k < i && moduleSet.Modules()[k].IsTarget() ==> (exists jj int :: 0 <= jj && jj < j && r[jj] == moduleSet.Modules()[k])))
 //@   ensures none: (forall i int :: 0 <= i && i < len(moduleSet.Modules()) ==> !moduleSet.Modules()[i].IsTarget()) ==> len(r) == 0
 //@ func ModuleSetNonTargetModules(moduleSet) (r)
 //@   property C10
 //@   closure 0 ensures r <==> !module.IsTarget()
 //@   ensures only-non-targets: forall j int :: 0 <= j && j < len(r) ==> !r[j].IsTarget() && (exists i int :: 0 <= i && i < len(moduleSet.Modules()) && moduleSet.Modules()[i] == r[j])
 //@   ensures all-non-targets: forall i int :: 0 <= i && i < len(moduleSet.Modules()) && !moduleSet.Modules()[i].IsTarget() ==> (exists j int :: 0 <= j && j < len(r) && r[j] == moduleSet.Modules()[i])
+//@   ensures order {C10 C02}: forall j int :: 0 <= j && j < len(r) ==> (exists i int :: 0 <= i && i < len(moduleSet.Modules()) && moduleSet.Modules()[i] == r[j] && (forall k int :: 0 <= k && k < i && !moduleSet.Modules()[k].IsTarget() ==> (exists jj int :: 0 <= jj && jj < j && r[jj] == moduleSet.Modules()[k])))
 //@ func ModuleSetLocalModules(moduleSet) (r)
 //@   property C10
 //@   closure 0 ensures r <==> module.IsLocal()
 //@   ensures only-local: forall j int :: 0 <= j && j < len(r) ==> r[j].IsLocal() && (exists i int :: 0 <= i && i < len(moduleSet.Modules()) && moduleSet.Modules()[i] == r[j])
 //@   ensures all-local: forall i int :: 0 <= i && i < len(moduleSet.Modules()) && moduleSet.Modules()[i].IsLocal() ==> (exists j int :: 0 <= j && j < len(r) && r[j] == moduleSet.Modules()[i])
+//@   ensures order {C10 C02}: forall j int :: 0 <= j && j < len(r) ==> (exists i int :: 0 <= i && i < len(moduleSet.Modules()) && moduleSet.Modules()[i] == r[j] && (forall k int :: 0 <= k && k < i && moduleSet.Modules()[k].IsLocal() ==> (exists jj int :: 0 <= jj && jj < j && r[jj] == moduleSet.Modules()[k])))
 //@ func ModuleSetRemoteModules(moduleSet) (r)
 //@   property C10
 //@   closure 0 ensures r <==> !module.IsLocal()
 //@   ensures only-remote: forall j int :: 0 <= j && j < len(r) ==> !r[j].IsLocal() && (exists i int :: 0 <= i && i < len(moduleSet.Modules()) && moduleSet.Modules()[i] == r[j])
 //@   ensures all-remote: forall i int :: 0 <= i && i < len(moduleSet.Modules()) && !moduleSet.Modules()[i].IsLocal() ==> (exists j int :: 0 <= j && j < len(r) && r[j] == moduleSet.Modules()[i])
+//@   ensures order {C10 C02}: forall j int :: 0 <= j && j < len(r) ==> (exists i int :: 0 <= i && i < len(moduleSet.Modules()) && moduleSet.Modules()[i] == r[j] && (forall k int :: 0 <= k && k < i && !moduleSet.Modules()[k].IsLocal() ==> (exists jj int :: 0 <= jj && jj < j && r[jj] == moduleSet.Modules()[k])))
 //
 // OpaqueID lists: element-wise the OpaqueIDs of the corresponding module list.
 //@ func modulesOpaqueIDs(modules) (r)
